@@ -134,6 +134,10 @@ func (e *Engine) canon(st *State, x ast.Expr) keyInfo {
 		if tv, ok := info.Types[x.Fun]; ok && tv.IsType() && len(x.Args) == 1 {
 			return e.canon(st, x.Args[0]) // conversion: same value for fact purposes
 		}
+		if ids := e.inlined[x]; len(ids) == 1 && st != nil {
+			// a helper interpreted in place: its value is that of its result variable
+			return e.canon(st, ids[0])
+		}
 		callee := Callee(info, x)
 		var out keyInfo
 		var parts []string
